@@ -16,7 +16,7 @@ use futures_util::{Sink, Stream};
 
 /// How many polls of an ended stream are tolerated inside one execution before the harness
 /// declares a busy loop (a correct consumer stops polling after `None`).
-pub const BUSY_LOOP_LIMIT: u64 = 5_000;
+pub const BUSY_LOOP_LIMIT: u64 = 300;
 
 #[derive(Clone, Debug)]
 pub enum Item<M> {
